@@ -9,14 +9,14 @@ from . import omen_common as O
 
 ID = 'C11'
 LEVEL = 'exploration'
-RULE = ('bounded-exhaustive: every training list of <= 2 (3 in thorough) passwords from a 14-password pool over {a,b,1} (lengths 1..6, 21 and 22) x n-gram {2,3,4}(+5) x alphabet size {2,3,10} is trained with the real trainer; '
-        'for every candidate string over {a,b,1,Z} up to length min(ngram+2,6), every training password and the boundary lengths, the level from the trainer third-pass function on the captured in-memory model, '
+RULE = ('bounded-exhaustive: every training list of <= 2 (3 in thorough) passwords from a 17-password pool over {a,b,1,space} (lengths 1..6, 21 and 22) x n-gram {2,3,4}(+5) x alphabet size {2,3,10} is trained with the real trainer; '
+        'for every candidate string over {a,b,1,Z,space} up to length min(ngram+2,6), every training password and the boundary lengths, the level from the trainer third-pass function on the captured in-memory model, '
         'the level from the real OmenScorer on the saved files and the level(s) at which the loaded guesser grammar generates the string (reference semantics, cross-checked against the real MarkovCracker output for levels <= 6) '
         'must agree or all say "cannot be generated"; omen_pws_per_level.txt must be the tally; non-trivial = (training, candidate) with a level != -1')
 ASSUMPTIONS = ['the guesser level is computed on the grammar dictionary returned by the real load_rules with the generator semantics that C10 establishes; for levels <= 6 it is also cross-checked against real MarkovCracker output',
                'utf-8 rulesets (other encodings of the OMEN files: C07)']
 NSHARDS = 32
-POOL = ['a', 'ab', 'aab', 'abab', 'ab1', '1ab1', 'bbbb', 'aaaaa', 'ab1ab1', 'b1', 'abba', 'a1a1a', 'a' * 21, 'ab' * 11]
+POOL = ['a', 'ab', 'aab', 'abab', 'ab1', '1ab1', 'bbbb', 'aaaaa', 'ab1ab1', 'b1', 'abba', 'a1a1a', 'a' * 21, 'ab' * 11, 'a b', 'ab ab', ' ab ']
 
 
 def trainings(tier):
@@ -40,7 +40,7 @@ def candidates(ngram, lines):
     maxlen = min(ngram + 2, 6)
     out = []
     for n in range(1, maxlen + 1):
-        out.extend(''.join(t) for t in itertools.product('ab1Z', repeat=n))
+        out.extend(''.join(t) for t in itertools.product('ab1Z ' if n <= 5 else 'ab1Z', repeat=n))
     out.extend(lines)
     out.extend(['a' * 20, 'a' * 21, 'a' * 22, 'ab' * 10 + 'a', 'ab' * 11])
     return list(dict.fromkeys(out))
@@ -52,7 +52,7 @@ def shards(tier):
 
 def bounds(tier):
     return {'pool': [p if len(p) < 12 else '%s..(%d chars)' % (p[:4], len(p)) for p in POOL], 'list_size': '<= %d' % (3 if tier == 'thorough' else 2),
-            'ngram': [2, 3, 4] + ([5] if tier == 'thorough' else []), 'alphabet_size': [2, 3, 10], 'candidate_alphabet': 'ab1Z', 'candidate_max_len': 'min(ngram+2, 6)'}
+            'ngram': [2, 3, 4] + ([5] if tier == 'thorough' else []), 'alphabet_size': [2, 3, 10], 'candidate_alphabet': 'ab1Z + space', 'candidate_max_len': 'min(ngram+2, 6)'}
 
 
 def check_training(wd, lines, opts, acc, want_keyspace=False):
